@@ -121,14 +121,19 @@ type Step struct {
 
 // Scenario is a self-contained run.
 type Scenario struct {
-	Name    string   `json:"name"`
-	Mode    string   `json:"mode,omitempty"`   // at (default) | xa | bare
-	DB      string   `json:"db,omitempty"`     // schema name (default: derived from Name); a run-unique suffix is always added
-	Params  string   `json:"params,omitempty"` // DSN parameters (default DefaultParams)
-	Version string   `json:"version,omitempty"`
-	Config  Config   `json:"config"`
-	Setup   []string `json:"setup"` // DDL + initial rows, run on the bare database before the journal starts (undo_log is created automatically)
-	Steps   []Step   `json:"steps"`
+	Name string `json:"name"`
+	Mode string `json:"mode,omitempty"` // at (default) | xa | bare
+	DB   string `json:"db,omitempty"`   // schema name (default: derived from Name); a run-unique suffix is added unless FixedDB
+	// FixedDB: the schema name is used as is (several scenarios of one process then share a DATABASE NAME, as several data
+	// sources with equally named schemas do); the run-unique part goes into the host address instead
+	FixedDB bool `json:"fixed_db,omitempty"`
+	// AutoIncStep: auto_increment_increment of the scenario's server (0/1 = 1)
+	AutoIncStep int      `json:"auto_inc_step,omitempty"`
+	Params      string   `json:"params,omitempty"` // DSN parameters (default DefaultParams)
+	Version     string   `json:"version,omitempty"`
+	Config      Config   `json:"config"`
+	Setup       []string `json:"setup"` // DDL + initial rows, run on the bare database before the journal starts (undo_log is created automatically)
+	Steps       []Step   `json:"steps"`
 }
 
 // ---------------------------------------------------------------- trace
@@ -329,9 +334,13 @@ func Run(sc Scenario) *Trace {
 	if base == "" {
 		base = sanitize(sc.Name)
 	}
-	dbname := fmt.Sprintf("%s_r%d", base, atomic.AddInt64(&runNo, 1))
+	n := atomic.AddInt64(&runNo, 1)
+	dbname, host := fmt.Sprintf("%s_r%d", base, n), "127.0.0.1"
+	if sc.FixedDB {
+		dbname, host = base, fmt.Sprintf("10.%d.%d.%d", (n>>16)&255, (n>>8)&255, n&255)
+	}
 	mk := func(tag string) string {
-		return fmt.Sprintf("u:p@tcp(127.0.0.1:3306)/%s?%s&tag=%s", dbname, params, tag)
+		return fmt.Sprintf("u:p@tcp(%s:3306)/%s?%s&tag=%s", host, dbname, params, tag)
 	}
 	r := &runner{sc: sc, dsn: map[string]string{"at": mk("at"), "xa": mk("xa"), "bare": mk("bare")},
 		dbs: map[string]*sql.DB{}, conns: map[string]*sql.Conn{}, txs: map[string]*sql.Tx{}}
@@ -350,7 +359,11 @@ func Run(sc Scenario) *Trace {
 	}
 	r.srv = srv
 	srv.ResetDiscardsTx = sc.Config.ResetDiscardsTx
+<<<<<<< HEAD
 	srv.SetAutoIncStep(int64(sc.Config.AutoIncrementIncrement))
+=======
+	srv.SetAutoIncStep(int64(sc.AutoIncStep))
+>>>>>>> atroll
 	if sc.Version != "" {
 		srv.SetVersion(sc.Version)
 	}
